@@ -135,3 +135,115 @@ Proof.
   intros t Hwf Hns. destruct (bmax_tight_all t Hwf Hns) as [b [Hb Hl]]. exists (max_val t), b. split; [exact Hb|]. split; [exact Hl|].
   apply enc_ok_iff_valid. exists b. exact Hb.
 Qed.
+
+(* ================================================================================================================================
+   The companion for the MINIMUM: bmin is attained.  `min_val t` (empty variable-length arrays, a union option of minimal size) serializes
+   to exactly bmin t bits for every well-formed type whose nested delimited types have an empty minimal body (`nominslack`: as a field
+   a delimited type counts only its 32-bit header towards the minimum, because a future version may be empty). *)
+Fixpoint argmin (B : ty -> nat) (fs : list ty) : nat :=
+  match fs with
+  | [] => 0
+  | f :: r => match r with [] => 0 | _ => if B f <=? fields_min B r then 0 else S (argmin B r) end
+  end.
+
+Fixpoint min_val (t : ty) : val :=
+  match t with
+  | TPrim p => max_prim p
+  | TFix e n => VArr (repeat (min_val e) n)
+  | TVar e cap => VArr []
+  | TComp false fs _ => VStruct (map min_val fs)
+  | TComp true fs _ => let k := argmin (as_field_min bmin) fs in VUnion k (nth k (map min_val fs) VVoid)
+  end.
+
+Fixpoint nominslack (t : ty) : bool :=
+  match t with
+  | TPrim _ => true
+  | TFix e _ | TVar e _ => nominslack e
+  | TComp u fs ext =>
+      forallb nominslack fs &&
+      match ext with
+      | None => true
+      | Some _ => (if u then let o := tag_bits (length fs) + fields_min (as_field_min bmin) fs in o + pad8 o
+                   else fields_sum (as_field_min bmin) fs 0) =? 0
+      end
+  end.
+
+Definition P_mtight (t : ty) : Prop :=
+  wf_ty t = true -> nominslack t = true -> exists b, enc_body t (min_val t) = Ok b /\ length b = bmin t.
+Definition P_mtightf (t : ty) : Prop := exists b, enc_field t (min_val t) = Ok b /\ length b = fmin t.
+
+Lemma mtight_body_to_field t : wf_ty t = true -> nominslack t = true -> P_mtight t -> P_mtightf t.
+Proof.
+  intros Hwf Hns HP. destruct (HP Hwf Hns) as [b [Hb Hl]]. unfold P_mtightf, enc_field, fmin.
+  destruct t as [p|e n|e c|u fs [x|]]; try (exists b; split; assumption).
+  cbn [as_field_enc as_field_min]. rewrite Hb. cbn [bind]. eexists. split; [reflexivity|].
+  rewrite app_length, bits_of_N_length, Hl.
+  cbn [nominslack] in Hns. apply andb_true_iff in Hns. destruct Hns as [_ Hx]. apply Nat.eqb_eq in Hx.
+  cbn [bmin]. destruct u; rewrite Hx; lia.
+Qed.
+
+Lemma enc_fields_mtight fs : Forall P_mtightf fs -> forall off,
+  exists b, enc_fields enc_field fs (map min_val fs) off = Ok b /\ off + length b = fields_sum fmin fs off.
+Proof.
+  induction 1 as [|f r [b0 [Hb0 Hl0]] _ IH]; intro off; cbn [map enc_fields fields_sum].
+  - eexists. split; [reflexivity|]. rewrite repeat_length. reflexivity.
+  - rewrite Hb0. cbn [bind]. destruct (IH (off + padn off (align f) + length b0)) as [br [Hbr Hlr]]. rewrite Hbr. cbn [bind].
+    eexists. split; [reflexivity|]. rewrite !app_length, repeat_length. rewrite <- Hl0. lia.
+Qed.
+
+Lemma argmin_spec B fs : fs <> [] -> exists f, nth_error fs (argmin B fs) = Some f /\ B f = fields_min B fs.
+Proof.
+  induction fs as [|f r IH]; intro Hne; [congruence|]. destruct r as [|g r'].
+  - exists f. cbn. split; reflexivity.
+  - cbn [argmin]. change (fields_min B (f :: g :: r')) with (Nat.min (B f) (fields_min B (g :: r'))).
+    destruct (Nat.leb_spec (B f) (fields_min B (g :: r'))).
+    + exists f. split; [reflexivity|]. lia.
+    + destruct (IH ltac:(discriminate)) as [h [Hh Hm]]. exists h. split; [exact Hh|]. lia.
+Qed.
+
+Lemma nth_map_min fs : forall k f, nth_error fs k = Some f -> nth k (map min_val fs) VVoid = min_val f.
+Proof.
+  induction fs as [|g r IH]; intros [|k] f H; cbn in H; try discriminate; cbn [map nth].
+  - injection H as ->. reflexivity.
+  - apply IH. exact H.
+Qed.
+
+Lemma comp_fields_mtight u fs ext : Forall P_mtight fs -> wf_ty (TComp u fs ext) = true -> nominslack (TComp u fs ext) = true ->
+  Forall P_mtightf fs.
+Proof.
+  intros HF Hwf Hns. cbn [wf_ty] in Hwf. apply andb_true_iff in Hwf. destruct Hwf as [Hwf _]. apply andb_true_iff in Hwf. destruct Hwf as [Hwf _].
+  cbn [nominslack] in Hns. apply andb_true_iff in Hns. destruct Hns as [Hns _].
+  rewrite forallb_forall in Hwf, Hns. rewrite Forall_forall in HF |- *. intros f Hin.
+  apply mtight_body_to_field; auto.
+Qed.
+
+Theorem bmin_tight_all : forall t, P_mtight t.
+Proof.
+  induction t as [p|e n IH|e c IH|u fs ext IH] using ty_nested_ind; intros Hwf Hns.
+  - destruct p; cbn [min_val max_prim enc_body enc_prim bmin prim_bits]; eexists; (split; [reflexivity|]);
+      rewrite ?bits_of_N_length, ?repeat_length; reflexivity.
+  - cbn [wf_ty nominslack] in Hwf, Hns. destruct (mtight_body_to_field e Hwf Hns IH) as [b [Hb Hl]].
+    cbn [min_val enc_body]. rewrite repeat_length, Nat.eqb_refl.
+    destruct (enc_list_repeat _ _ _ Hb n) as [bs [Hbs Hls]]. exists bs. split; [exact Hbs|]. cbn [bmin]. rewrite Hls, Hl. reflexivity.
+  - cbn [min_val enc_body length enc_list bind]. destruct (Nat.ltb_spec c 0); [lia|]. eexists. split; [reflexivity|].
+    rewrite app_nil_r, bits_of_N_length. reflexivity.
+  - pose proof (comp_fields_mtight u fs ext IH Hwf Hns) as HF. destruct u.
+    + assert (Hne : fs <> []).
+      { cbn [wf_ty] in Hwf. apply andb_true_iff in Hwf. destruct Hwf as [Hwf _]. apply andb_true_iff in Hwf. destruct Hwf as [_ Hu].
+        apply andb_true_iff in Hu. destruct Hu as [Hu _]. apply Nat.leb_le in Hu. destruct fs; [cbn in Hu; lia|discriminate]. }
+      destruct (argmin_spec fmin fs Hne) as [f [Hnth Hmin]].
+      assert (Hin : In f fs) by (eapply nth_error_In; exact Hnth).
+      rewrite Forall_forall in HF. destruct (HF f Hin) as [b [Hb Hl]].
+      cbn [min_val enc_body]. fold fmin. rewrite (nth_map_min fs _ f Hnth).
+      rewrite (enc_sel_nth _ fs _ f _ Hnth). unfold enc_field in Hb. rewrite Hb. cbn [bind]. eexists. split; [reflexivity|].
+      rewrite !app_length, bits_of_N_length, repeat_length, Hl, Hmin. cbn [bmin]. unfold fmin. lia.
+    + destruct (enc_fields_mtight fs HF 0) as [b [Hb Hl]]. cbn [min_val enc_body]. exists b. split; [exact Hb|].
+      cbn [bmin]. cbn in Hl. exact Hl.
+Qed.
+
+Theorem bmin_tight : forall t, wf_ty t = true -> nominslack t = true ->
+  exists v b, enc_body t v = Ok b /\ length b = bmin t /\ valid_val t v = true.
+Proof.
+  intros t Hwf Hns. destruct (bmin_tight_all t Hwf Hns) as [b [Hb Hl]]. exists (min_val t), b. split; [exact Hb|]. split; [exact Hl|].
+  apply enc_ok_iff_valid. exists b. exact Hb.
+Qed.
